@@ -79,7 +79,9 @@ OnRet(mm, e) ==
       \* above last-stream-id: fails promptly, not by waiting for its timeout
       c7 == FlagIf(c6, e.class = "timeout" /\ Len(s) > 0 /\ \A i \in DOMAIN s : s[i].byGoAway,
                    "C11:request-above-last-stream-id-not-failed-promptly")
-      c8 == FlagIf(c7, e.ms > MaxAttempts * TimeoutMs(mm) + 4000, "C12:not-resolved-within-its-timeout")
+      c8a == FlagIf(c7, e.ms > MaxAttempts * TimeoutMs(mm) + 4000, "C12:not-resolved-within-its-timeout")
+      \* ... and not before it either: "timed out" is only ever said of a request that has had its time
+      c8 == FlagIf(c8a, e.class = "timeout" /\ TimeoutMs(mm) >= 6 /\ e.ms < TimeoutMs(mm) - 3, "C12:timed-out-before-its-timeout")
       \* an error class the retry loop treats as "never reached the wire" although it did, and nobody disclaimed it
       c9 == FlagIf(c8, ~e.ok /\ e.class \in RetryableClass /\ \E i \in DOMAIN s : ~s[i].disc,
                    "C11:request-that-reached-a-server-resolved-with-a-retryable-error (" \o e.class \o ")")
